@@ -62,7 +62,9 @@ def gen(rng):
     # the family generator most of the time, the generic engine generator for the rest
     if rng.random() < 0.8:
         return _GEN(rng)
-    return E.gen_scenario(rng, dense=rng.random() < 0.5)
+    sc = E.gen_scenario(rng, dense=rng.random() < 0.5)
+    sc["decisions"] = list(sc["decisions"]) + ["halt"]   # bounds the harness loop should resume() itself fail
+    return sc
 
 
 def run(ctx, model=True):
